@@ -163,6 +163,15 @@ class Taps(object):
             state['singular'] = False
             clock.jump_pending = False
             status = int(status)
+            rnorm = None
+            if status == 1:
+                try:
+                    import numpy as _np
+                    r_ = model.evaluate_residuals()
+                    rnorm = float(_np.max(_np.abs(r_))) if len(r_) else 0.0
+                except Exception:  # noqa
+                    rnorm = None
+            rec.last_rnorm = rnorm
             fired = False
             if kind is not None and status == 0:
                 fired = True
@@ -177,7 +186,7 @@ class Taps(object):
                 else:
                     rec.fire('backup.failed')
             rec.solves.append({'seq': seq, 't': t, 'backup': backup, 'fault': kind, 'fired': fired,
-                               'status': status, 'msg': str(msg)[:60]})
+                               'status': status, 'msg': str(msg)[:60], 'rnorm': rnorm})
             rec.events.append(['solve', seq, t, int(backup), kind if fired else None, status])
             return status, msg, iters
 
@@ -193,6 +202,7 @@ class Taps(object):
         def update_network_previous_values(wn):
             if rec.n_solver_calls > 0 or rec.steps:
                 snap = snapshot(wn, rec.scn, reported=rec.saved_flag)
+                snap['rnorm'] = getattr(rec, 'last_rnorm', None)
                 rec.saved_flag = False
                 rec.steps.append(snap)
                 rec.events.append(['step', snap['t'], snap['reported'], snap['status'], snap['isolated'], snap['leak_on']])
